@@ -427,9 +427,9 @@ fn compilable() -> bool { COMPILABLE.load(std::sync::atomic::Ordering::Relaxed) 
 
 // paths as a user writes them: enum variants, constants, and *bare identifiers* — a local, const or static holding an
 // `Easing` (the only way to hand the macro an `Easing::Custom`), whatever its name: the macro passes the path through
-const EASINGS: [&str; 19] = ["P:Easing::OutQuad", "P:Easing::Linear", "P:Easing::InOutBack", "P:Easing::Ease", "P:my::easing::CUSTOM", "P:Linear",
-    "P:ease", "P:linear", "P:ease_in", "P:ease_out", "P:ease_in_out", "P:my_ease", "P:e", "P:r#ease", "P:self::ease", "P:EASE", "P:step_end",
-    "P:easing", "P:bounce"];
+const EASINGS: [&str; 17] = ["P:Easing::OutQuad", "P:Easing::Linear", "P:Easing::InOutBack", "P:Easing::Ease", "P:my::easing::CUSTOM", "P:Linear",
+    "P:ease", "P:linear", "P:ease_in", "P:ease_out", "P:ease_in_out", "P:my_ease", "P:r#ease", "P:self::ease", "P:EASE", "P:step_end",
+    "P:bounce"];
 
 fn gen_num(r: &mut Rng) -> String {
     if !compilable() && r.chance(1, 14) {
